@@ -56,7 +56,11 @@ RULE = (
     "which opportunity) with failure point in {before_first, between, at_rung, after_resume, with_decision} x workers x "
     "arrival policy x metric table x (finite space with allow_duplicates for the no-repeat clause; half of the GP Hyperband "
     "histories: allow_duplicates=True on a 6-9 point space, 2-3 initial random choices, 7-10 trials, so that failures land "
-    "after the searcher holds an observation of the trial and many model-based suggestions follow). Distinct = digest of "
+    "after the searcher holds an observation of the trial and many model-based suggestions follow; 30 % of the random-searcher "
+    "FIFO / Hyperband / median-rule histories: restrict_configurations of 2-6 members with allow_duplicates=True, as many "
+    "failure targets as members for the small sets, so that 'None once every member has failed' is reached). Engine B arms "
+    "wait_last / exhaust_last / all_in_final_poll put the failures that exceed max_failures into the last iteration of the "
+    "tuning loop (job that ends last learnt from a first, failure-free pass of the same simulated run). Distinct = digest of "
     "(kind, searcher, failure events (trial, point, level), sequence of event kinds after the first failure); non-trivial "
     "= at least one failure was delivered and at least one scheduler call was answered after it."
 )
